@@ -377,6 +377,7 @@ def run(c, index, tier):
     spec = ch.choice("w", R.SPECS, "spec")
     cfg = spec.draw(ch)
     data = spec.data(ch, "A")
+    cfg = spec.finalize(cfg, data)
     template = ch.weighted("w", TEMPLATES, "template")
     use_invalid = ch.boolean("w", 0.4, "invalid")
     g = ch.subseed("r", "global-seed")
